@@ -166,6 +166,29 @@ def build(ift, s, dom):
         md = ift.MultiDomain.make({kk: mk_dom(ift, v[0]) for kk, v in s[1].items()})
         ops = {kk: build(ift, v[1], md[kk]) for kk, v in s[1].items() if v[1] is not None}
         return ift.BlockDiagonalOperator(md, ops)
+    if k == "hist":
+        # a history on ONE DiagonalOperator object: first use it (sample / inverse sample / get_sqrt, which may
+        # refuse and fills the lazily cached minimum), then derive a new operator by a scalar scaling or
+        # shift, which is the operator under test
+        D = build(ift, s[1], dom)
+        for act in s[2]:
+            try:
+                if act == "draw":
+                    draw_with(D, False, None)
+                elif act == "draw_inv":
+                    draw_with(D, True, None)
+                elif act == "sqrt":
+                    D.get_sqrt()
+            except (ValueError, NotImplementedError, RuntimeError):
+                pass
+        how, c = s[3]
+        if how == "scale":
+            return D.scale(c)
+        if how == "neg":
+            return -D
+        if how == "rmul":
+            return c * D
+        return D + ift.ScalingOperator(D.domain, c, D.sampling_dtype)       # "add": a scalar shift
     if k == "mdscal":
         # ScalingOperator(MultiDomain, f, sampling_dtype={key: dtype}); the dict is given in the listed
         # (not necessarily alphabetical) order
@@ -210,7 +233,7 @@ def build_bun(ift, b, d):
     if k == "diagbun":       # invertible bun
         return ift.DiagonalOperator(ift.Field.from_raw(d, np.array(b[1], dtype=float).reshape(d.shape)))
     if k == "scalbun":
-        return ift.ScalingOperator(d, b[1])
+        return ift.ScalingOperator(d, complex(*b[1]) if isinstance(b[1], list) else b[1])
     if k == "expand":        # ContractionOperator(...).adjoint: n pixels -> n*m pixels, not square
         big = ift.DomainTuple.make(tuple(d) + (ift.UnstructuredDomain(b[1]),))
         return ift.ContractionOperator(big, len(d)).adjoint
@@ -264,7 +287,7 @@ def gen_bun(rng, n):
     if r == 2:
         return ["diagbun", [[1.0, 2.0, -2.0, 0.5, 4.0][int(rng.integers(5))] for _ in range(n)]]
     if r == 3:
-        return ["scalbun", [2.0, -1.0, 0.5, 1.0][int(rng.integers(4))]]
+        return ["scalbun", [2.0, -1.0, 0.5, 1.0, [0.0, 2.0], [1.0, 1.0], [0.0, -1.0], [2.0, -2.0]][int(rng.integers(8))]]
     if r == 4:
         return ["expand", int(rng.integers(1, 3))]
     fl = [bool(rng.integers(2)) for _ in range(n)]
@@ -441,6 +464,57 @@ def mdscal_family():
     out.append({"n": 3, "spec": ["mdscal", 4.0, [["b", 2, "c"], ["a", 1, "c"]], True], "inv": False})
     out.append({"n": 3, "spec": ["mdscal", 4.0, [["b", 2, "f"], ["a", 1, None]], False], "inv": False})
     return out
+
+
+def history_family():
+    """every run: a DiagonalOperator is used first (forward / inverse sample, get_sqrt -- sampled or
+    refused), then scaled by a negative / positive factor, negated or shifted, then sampled: the draw
+    must refuse exactly when the resulting dense operator is not positive (semi-)definite"""
+    out = []
+    diags = [[4.0, -1.0, 16.0], [-4.0, -1.0, -0.25], [4.0, 0.0, 1.0], [4.0, 1.0, 16.0], [-4.0, 0.0, -1.0]]
+    for dt in ("f", "c"):
+        for dv in diags:
+            for pre in (["draw"], ["draw_inv"], ["sqrt"], []):
+                hows = (["scale", -4.0], ["scale", 4.0], ["neg", -1.0], ["rmul", -0.25], ["add", 4.0], ["add", -4.0], ["add", 1.0])
+                for how in (hows if dt == "f" else (hows[0], hows[2], hows[5])):
+                    for inv in (False, True):
+                        out.append({"n": 3, "spec": ["hist", ["diag", dv, None, dt], pre, how], "inv": inv})
+    return out
+
+
+def scalar_bun_family():
+    """every run: sandwiches with real and COMPLEX scalar buns: the represented operator and the sample
+    covariance must both be |f|^2 * cheese"""
+    out = []
+    for dt in ("f", "c"):
+        for f in (2.0, -0.5, [0.0, 2.0], [1.0, 1.0], [0.0, -1.0], [2.0, -2.0], [0.0, 1.0]):
+            for ch in (["diag", [4.0, 0.25, 16.0], None, dt], ["scal", 4.0, 0.0, dt], None,
+                       ["sandwich", ["diagbun", [2.0, 1.0, 0.5]], ["scal", 1.0, 0.0, dt], None]):
+                for inv in (False, True):
+                    out.append({"n": 3, "spec": ["sandwich", ["scalbun", f], ch, dt if ch is None else None], "inv": inv})
+    return out
+
+
+def has_complex_bun(s):
+    if isinstance(s, list):
+        if s and s[0] == "scalbun" and isinstance(s[1], list) and s[1][1] != 0:
+            return True
+        return any(has_complex_bun(x) for x in s)
+    if isinstance(s, dict):
+        return any(has_complex_bun(x) for x in s.values())
+    return False
+
+
+def has_dtype(s, dt):
+    if isinstance(s, list):
+        if s and s[0] in ("scal", "diag", "diag2") and s[3] == dt:
+            return True
+        if s and s[0] == "sandwich" and s[2] is None and s[3] == dt:
+            return True
+        return any(has_dtype(x, dt) for x in s)
+    if isinstance(s, dict):
+        return any(has_dtype(x, dt) for x in s.values())
+    return False
 
 
 def imag_mask(spec):
@@ -642,7 +716,7 @@ def expect_ok(s, inv):
         b = s[1]
         ch_ok = (s[3] is not None) if s[2] is None else expect_ok(s[2], inv)
         if b[0] == "scalbun":
-            return ch_ok
+            return ch_ok        # |f|^2 * cheese, also for a complex scalar bun
         if inv:
             return b[0] in ("diagbun", "fftshift") and ch_ok
         return ch_ok
@@ -650,6 +724,13 @@ def expect_ok(s, inv):
         return (not inv) and all(expect_ok(o, False) for o in s[1])
     if k == "block":
         return all(v[1] is not None and expect_ok(v[1], inv) for v in s[1].values())
+    if k == "hist":
+        leaf = s[1]
+        if leaf[3] is None or leaf[2]:
+            return False
+        how, c = s[3]
+        vals = [(-v if how == "neg" else (v + c if how == "add" else v * c)) for v in leaf[1]]
+        return min(vals) >= 0 and not (min(vals) == 0 and inv)
     if k == "mdscal":
         return all(d_ is not None for _, _, d_ in s[2]) and s[1] >= 0 and not (s[1] == 0 and inv)
     if k == "mdsum":
@@ -823,6 +904,18 @@ class C13(C.Check):
             return None                     # no finite dense matrix to compare with
         if not close(Cm, Cm.conj().T, 1e-12):
             return ("covariance", "a sample was drawn from an operator that is not Hermitian")
+        if has_complex_bun(c["spec"]):
+            # a complex bun mixes real and imaginary parts: the covariance is the Hermitian one,
+            # E[s s^H] = T T^H = kappa * C, kappa = 2 for a complex sampling dtype (each part has the full variance)
+            kappa = 2.0 if has_dtype(c["spec"], "c") else 1.0
+            covh = T @ T.conj().T
+            if bool(c["inv"]) == have_times:
+                if not close(covh @ Cm, kappa * np.eye(covh.shape[0]), tol * 10):
+                    return ("covariance", "%s draw: T T^H is not %g times the inverse of the dense operator" % ("inverse" if c["inv"] else "forward", kappa))
+            elif not close(covh, kappa * Cm, tol):
+                return ("covariance", "%s draw: T T^H differs from %g times the dense operator (max diff %.3g)"
+                        % ("inverse" if c["inv"] else "forward", kappa, float(np.abs(covh - kappa * Cm).max())))
+            return None
         # complex dtype: real and imaginary parts come from different noise blocks, each with covariance C
         Tr, Ti = T.real, T.imag
         if np.abs(Ti).max(initial=0) != 0 and not close(Tr @ Ti.T, np.zeros((T.shape[0], T.shape[0])), tol):
@@ -876,7 +969,7 @@ class C13(C.Check):
         import nifty.cl as ift
         self.ift = ift
         rng = ctx.rng(13)
-        todo = [c for c in ctx.corpus()] + zero_family() + mdsum_family() + adapter_family() + mdscal_family()
+        todo = [c for c in ctx.corpus()] + zero_family() + mdsum_family() + adapter_family() + mdscal_family() + history_family() + scalar_bun_family()
         for _ in range(220 if ctx.quick else 2500):
             todo.append(json.loads(json.dumps(gen_case(rng))))
         self.cases = []
@@ -907,7 +1000,7 @@ class C13(C.Check):
         res.coverage.update({
             "evaluations": len(self.cases), "modelled_cases_compared_in_coq": len(checks),
             "distinct_nontrivial": distinct,
-            "rule": "random operator expressions (depth <= 2) plus a systematic family of semi-definite and positive scalings/diagonals under every mode flip (all four _trafo values) x dtype x direction, over scaling / diagonal (full, partial-space, .inverse/.adjoint, real and complex sampling dtype, missing dtype, zero / negative / complex entries) / sandwiches (matrix, invertible diagonal, scaling, expanding, masking buns; cheese or sampling_dtype) / scalings on MultiDomains with per-key sampling dtypes (dict in any order) / operators flipped through OperatorAdapter (.inverse, .adjoint, .adjoint.inverse, .inverse.adjoint of sandwiches, blocks, enablers) / sums (also of summands on overlapping sub-MultiDomains, e.g. block covariances on {a,b} and {b,c}) / block-diagonals (with missing keys) / adapters / InversionEnabler / SamplingEnabler, forward and inverse draws; non-trivial = anything but a bare scaling; distinct by JSON",
+            "rule": "random operator expressions (depth <= 2) plus a systematic family of semi-definite and positive scalings/diagonals under every mode flip (all four _trafo values) x dtype x direction, over scaling / diagonal (full, partial-space, .inverse/.adjoint, real and complex sampling dtype, missing dtype, zero / negative / complex entries) / sandwiches (matrix, invertible diagonal, scaling, expanding, masking buns; cheese or sampling_dtype) / use histories of one DiagonalOperator (sample/refuse first, then negative scaling / shift, then sample) / sandwiches with real and complex scalar buns / scalings on MultiDomains with per-key sampling dtypes (dict in any order) / operators flipped through OperatorAdapter (.inverse, .adjoint, .adjoint.inverse, .inverse.adjoint of sandwiches, blocks, enablers) / sums (also of summands on overlapping sub-MultiDomains, e.g. block covariances on {a,b} and {b,c}) / block-diagonals (with missing keys) / adapters / InversionEnabler / SamplingEnabler, forward and inverse draws; non-trivial = anything but a bare scaling; distinct by JSON",
             "samples": [o["case"] for o in self.cases[:3]],
             "input_distribution": {"top_level_kind": kinds, "outcome": outcomes},
             "disagreements": len(bad),
